@@ -265,4 +265,15 @@ func ScenarioSubSecond() Script {
 	)
 }
 
+// ScenarioPartnerRewards: DESIGN §7.3 F11 — x/kavadist with partner rewards per second larger than what an
+// infrastructure period mints per second (a configuration that passes params validation).
+// Needs Config.KavadistInfra and a large Config.KavadistPartnerRps.
+func ScenarioPartnerRewards() Script {
+	return script(
+		blk(sixS, func(g *Gen) []genFn { return []genFn{g.bankSend} }),
+		blk(sixS, func(g *Gen) []genFn { return []genFn{g.bankSend} }),
+		blk(time.Hour, func(g *Gen) []genFn { return nil }),
+	)
+}
+
 var _ = sdkmath.NewInt
